@@ -237,14 +237,15 @@ Lemma block_step_ok m b txs e es :
   ((e_kind e =? 3) && (e_t e =? zlen (m_chain m)) && (e_proof e =? b)) = true ->
   (forall c, c ∈ blk_victims (m_pool m) txs -> c ∈ m_live m -> count_ev (e :: es) (cancel_pred c) = 1) ->
   (forall t body rel, (t, body, rel) ∈ txs -> rel = true ->
-     (if mem t (m_delivered m)
+     (if mem t (m_delivered m) && negb (limbo m t)
       then has_ev (e :: es) (fun e => (e_kind e =? 2) && (e_t e =? t) && (e_proof e =? b) && (e_depth e =? 0))
       else has_ev (e :: es) (fun e => (e_kind e =? 1) && (e_t e =? t) && (e_proof e =? b) && (e_depth e =? 0)))
      = true) ->
   exists cf',
     block_step m b txs (e :: es) =
       (0, MS (blk_pool (m_pool m) txs) (m_delivered m) (m_live m) (m_seen m) (m_vouched m) cf' (m_unsafe m)
-             (m_safe m) (m_local m) (m_clock m) (m_insync m) (m_chain m ++ [b]) (m_vnow m) (m_vpersist m)) /\
+             (m_safe m) (m_local m) (m_clock m) (m_insync m) (m_chain m ++ [b]) (m_vnow m) (m_vpersist m)
+             (m_proofs m)) /\
     forall x, x ∈ cf' <-> x ∈ m_conflicted m \/ x ∈ blk_victims (m_pool m) txs.
 Proof.
   intros Hh Hvic Ht. unfold block_step. rewrite Hh. cbn [negb].
@@ -256,6 +257,7 @@ Proof.
   rewrite (H3 eq_refl Hvic). subst pool'. cbn [Z.eqb negb].
   match goal with |- context [if ?c then 153 else 0] => assert (Hb : c = false) end.
   { apply existsb_false_iff. intros [[t body] rel] Hin. destruct rel; [|reflexivity]. cbn [andb].
-    apply negb_false_iff. specialize (Ht t body true Hin eq_refl). destruct (mem t (m_delivered m)); exact Ht. }
+    apply negb_false_iff. specialize (Ht t body true Hin eq_refl).
+    destruct (mem t (m_delivered m) && negb (limbo m t)); exact Ht. }
   rewrite Hb. exists cf'. split; [reflexivity|exact H2].
 Qed.
